@@ -1,7 +1,7 @@
 (* Concrete inputs: non-vacuity of the C01/C02 theorems and the witness of the known finding
    C02-split-leftover (a battery group whose inverters cannot realise its minimum power). *)
 From Coq Require Import QArith Qabs Lqa Lia List Bool.
-From Verif Require Import model.Dist proofs.DistFacts proofs.DistBounds proofs.DistTop.
+From Verif Require Import gen.DistConst model.Dist proofs.DistFacts proofs.DistBounds proofs.DistTop.
 Import ListNotations.
 Open Scope Q_scope.
 
@@ -45,6 +45,10 @@ Lemma ex_full_wf : wf_groups [ex_full; ex_g1].
 Proof. intros g [<-|[<-|[]]]; wf_group_tac. Qed.
 Lemma ex_full_no_headroom : no_headroom false ex_full /\ admitted [ex_full; ex_g1] 100.
 Proof. split; [qdec|]. split; [reflexivity|left; qdec]. Qed.
+
+(* the exponent BatteryManager configures (translated from /repo) is positive, so pow(0, exponent) = 0 *)
+Lemma manager_exponent_positive : 0 < dist_manager_exponent /\ dist_manager_exponent == 1 /\ idf 0 == 0.
+Proof. repeat split; qdec. Qed.
 
 (* ---------------------------------------------------------------- known finding C02-split-leftover *)
 (* battery: exclusion 10, inclusion 15; inverters: [0, 5] and [25, 75]: no total in [10, 15] is realisable *)
